@@ -211,7 +211,7 @@ class IOBase(Communicator):
     def callCallbacks(self):
         for key, cb in list(self._reconnectCallbacks.items()):
             try:
-                removeme = not cb()
+                removeme = cb() is False
             except Exception as e:
                 self.log.error('callback: %s', e)
                 removeme = True
